@@ -50,6 +50,26 @@ func main() {
 			path, _ = filepath.Abs(path)
 		}
 		os.Exit(sim.ReplayMain(path))
+	case "dettest":
+		p := sim.Registry[os.Args[2]]
+		n, _ := strconv.Atoi(os.Args[4])
+		os.Exit(sim.DetTest(self, p, os.Args[3], n))
+	case "one":
+		// one <prop> <tier> <seed> <idx>: execute a single run and print its event log
+		p := sim.Registry[os.Args[2]]
+		seed, _ := strconv.ParseUint(os.Args[4], 10, 64)
+		idx, _ := strconv.Atoi(os.Args[5])
+		env, closer, err := p.NewEnv(os.Args[3])
+		if err != nil {
+			fmt.Fprintln(os.Stderr, err)
+			os.Exit(2)
+		}
+		res, c := sim.Execute(p.ID, os.Args[3], idx, sim.NewSrc(sim.Mix(seed, p.ID, idx)), env, nil, p.Fn, 100000)
+		closer()
+		for _, l := range c.Log.Lines {
+			fmt.Println(l)
+		}
+		fmt.Printf("hash=%s steps=%d viol=%v trouble=%q stats=%v\n", res.Hash, res.Steps, res.Viol, res.Trouble, res.Stats)
 	case "worker":
 		// worker <prop> <tier> <seed> <shard> <nshards> [list]
 		if len(os.Args) < 7 {
@@ -68,11 +88,9 @@ func main() {
 		}
 		os.Exit(sim.WorkerMain(p, os.Args[3], seed, shard, nshards, only))
 	default:
-		if fn, ok := extra[os.Args[1]]; ok {
+		if fn, ok := sim.Extra[os.Args[1]]; ok {
 			os.Exit(fn(os.Args[2:]))
 		}
 		usage()
 	}
 }
-
-var extra = map[string]func([]string) int{}
